@@ -160,9 +160,10 @@ def run(prop, tier):
             e = json.loads(ln)
             counts[e["outcome"]] = counts.get(e["outcome"], 0) + 1
         for e in all_events:
-            # non-trivial: the parser got past the first token (accepted, or a family member, or a
-            # crash), i.e. anything but a short rejected string
-            if e["outcome"] != "err" or e["family"] not in ("garbage", "mc") or e["len"] >= 20:
+            # non-trivial: a family member, an input of the C01/C02 model, an accepted input (the whole
+            # pipeline ran), a crash, or a mutated seed document (rejected late); random alphabet
+            # strings that are rejected do not count
+            if e["outcome"] != "err" or e["family"] != "garbage" or e.get("gen") in ("splice", "token", "seed"):
                 out.nontriv([e["family"], e["n"], e["len"], e.get("text", [])[:64]])
         for e in all_events[:3]:
             out.sample({"family": e["family"], "n": e["n"], "len": e["len"], "outcome": e["outcome"],
@@ -173,10 +174,12 @@ def run(prop, tier):
         out.rule = ("one evaluation = one run of the pipeline from_raw -> Display -> pretty -> DOM walk forcing "
                     "every attribute value / reference value / text data (raw and text-expanded context) in a "
                     "worker process; judged by Trace_Cost.tla against the call machine of Cost.tla (only Return "
-                    "and Error exist). Non-trivial = family member, or accepted input, or rejected input of "
-                    ">= 20 code points, or a crash; counted over the events put through TLC")
+                    "and Error exist). Non-trivial = family member, input of the C01/C02 model, accepted input, crash, or "
+                    "mutated seed document; rejected random-alphabet strings are not counted; distinct by "
+                    "(family, n, length, first 64 code points); counted over the first TLC slice")
         out.assumptions = [
-            "wall-clock limit per call %d ms (the only time-related verdict), worker stack %d MiB, %d workers"
+            "wall-clock limit per call %d ms (the only time-related verdict; a time-out is re-run once with "
+            "nothing else running and must reproduce), worker stack %d MiB, %d workers"
             % (LIMIT_MS, STACK_MIB, JOBS),
             "families and bounds N as in spec/Cost.tla (MaxN); exponential families (content-model groups, "
             "entity cycles, doubling chain) run for every n <= N in the thorough tier and for ~10 values "
